@@ -367,6 +367,7 @@ def main_check(engine, tier, verif_seed, wall_cap=None, workers=None):
 
     # ---- extra parts ------------------------------------------------------
     parts = []
+    engine.batch_per_k = dict(total["per_k"])
     try:
         parts = engine.extra_parts(tier, pool, verif_seed) or []
     except HarnessError as e:
